@@ -51,6 +51,13 @@ def _color_spec(rng):
       h = h.upper()
     rgb = (int(h[0:2], 16), int(h[2:4], 16), int(h[4:6], 16))
     value = "#" + h
+    if rng.random() < 0.3:
+      # #rrggbbaa (the form the SRT writer itself emits), including a fully transparent colour
+      a = rng.choice(["00", "00", "01", "7f", "80", "fe", "ff"])
+      value += a.upper() if h.isupper() else a
+      q = rng.random()
+      src = ('"' + value + '"') if q < 0.7 else (("'" + value + "'") if q < 0.85 else value)
+      return src, [rgb[0], rgb[1], rgb[2], int(a, 16)]
   q = rng.random()
   if q < 0.7:
     src = '"' + value + '"'
